@@ -138,7 +138,7 @@ func (s *Source) CreateCollection(ctx context.Context, db, name string, pchannel
 		info.VirtualChannelNames = append(info.VirtualChannelNames, v)
 		info.PhysicalChannelNames = append(info.PhysicalChannelNames, p)
 		pos := make([]byte, 8)
-		binary.BigEndian.PutUint64(pos, s.w.Broker.Len(p))
+		binary.BigEndian.PutUint64(pos, s.w.Broker.LastID(p))
 		info.StartPositions = append(info.StartPositions, &commonpb.KeyDataPair{Key: p, Data: pos})
 	}
 	if err := s.put(ctx, s.keys.CollKey(dbID, id), mustMarshal(info)); err != nil {
